@@ -153,6 +153,20 @@ c16!(c16_label_std06_no_panic, 2, decode_label_never_panics(&StdHooks06));
 //@ C16 c16_std10_read_size9 quick default STD (TH095+): read_instr on arbitrary header bytes whose size field is 9 (one more than the header) returns Ok or Err and never panics (no underflow, no failed assert, no out-of-range read)
 c16!(c16_std10_read_size9, 13, read_instr_never_panics::<9>(&StdHooks10, 6, 2, 9));
 
+//@ C16 c16_std_quad_no_panic quick default STD object table: read_quad on 36 arbitrary bytes returns a quad, the terminator or an error and never panics (unknown kinds and sizes are reported, not asserted)
+c16!(c16_std_quad_no_panic, 6, {
+    let root = crate::verif_common::noop_emitter();
+    let cut = crate::verif_common::CutEmitter;
+    let bytes: [u8; 0x24] = kani::any();
+    let mut r = BinReader::from_reader(&root, "x", std::io::Cursor::new(bytes.to_vec()));
+    match read_quad(&mut r, &cut) {
+        Ok(q) => core::mem::forget(q),
+        Err(e) => core::mem::forget(e),
+    }
+    core::mem::forget(r);
+    core::mem::forget(root);
+});
+
 #[cfg(kani)]
 #[path = "/verif/.cache/playback/std.rs"]
 mod playback;
